@@ -43,6 +43,7 @@ type BoundedCfg struct {
 	Quick    int    `json:"quick"`    // bound used by the quick tier
 	Thorough int    `json:"thorough"` // bound used by the thorough tier
 	What     string `json:"what"`
+	Race     bool   `json:"race"` // run under the race detector; a race report fails the stand-in
 }
 
 type Config struct {
@@ -208,10 +209,25 @@ func main() {
 		x.indexFunctions()
 		x.instantiateAutos(pkgs)
 		loadS += time.Since(tl).Seconds()
-		for _, key := range db.Order {
+		x.resolveGuards()
+		todo := append([]string{}, db.Order...)
+		guardOnly := map[string]bool{}
+		for _, k := range x.guardFuncs(*prop, pkgs) {
+			if fs := db.Funcs[k]; fs == nil || !hasProp(fs.Props, *prop) {
+				guardOnly[k] = true
+				if fs == nil {
+					todo = append(todo, k)
+				}
+			}
+		}
+		for _, key := range todo {
 			fsp := db.Funcs[key]
-			if !hasProp(fsp.Props, *prop) || fsp.IsIface || fsp.Assumed {
-				continue
+			if fsp == nil {
+				// no contract of its own: verified only for the lock discipline of its guarded variables
+				fsp = &FuncSpec{Key: key, Pkg: x.fnByKey[key].Pkg.Pkg.Path(), Props: []string{*prop}, File: "(guarded)"}
+			}
+			if (!hasProp(fsp.Props, *prop) && !guardOnly[key]) || fsp.IsIface || (fsp.Assumed && !(guardOnly[key] && x.fnByKey[key] != nil && x.fnByKey[key].Blocks != nil)) {
+				continue // (an assumed contract's body is still checked for the lock discipline of guarded variables)
 			}
 			if *fnKey != "" && !strings.Contains(key, *fnKey) {
 				continue
@@ -225,7 +241,7 @@ func main() {
 				// restrict to obligations of this property
 				var keepO []*Obl
 				for _, o := range rep.Obls {
-					if hasProp(o.Props, *prop) {
+					if hasProp(o.Props, *prop) && (!guardOnly[key] || o.Tagged || o.Kind == "cover") {
 						keepO = append(keepO, o)
 					}
 				}
@@ -520,7 +536,8 @@ func summarize(prop, tier string, seed int, pc *PropCfg, reps []*FuncReport, x *
 			if isKnown {
 				continue
 			}
-			deg := len(r.Degraded) > 0
+			// lock-discipline obligations only depend on the lock bookkeeping, which unsupported constructs do not touch
+			deg := len(r.Degraded) > 0 && o.Kind != "guard"
 			switch {
 			case o.Status == "sat":
 				path := writeReplay(replayDir, prop, o, r, repo, verif)
@@ -828,7 +845,11 @@ func runBounded(pc *PropCfg, prop, tier, repo, verif string, skip bool) []map[st
 		ovb, _ := json.Marshal(ov)
 		ovFile := filepath.Join(dir, "overlay.json")
 		os.WriteFile(ovFile, ovb, 0o644)
-		cmd := exec.Command("go", "test", "-overlay", ovFile, "-vet=off", "-count=1", "-timeout", "300s", "-v", "-run", "TestVerifBounded", ".")
+		targs := []string{"test", "-overlay", ovFile, "-vet=off", "-count=1", "-timeout", "300s", "-v", "-run", "TestVerifBounded", "."}
+		if b.Race {
+			targs = append([]string{"test", "-race"}, targs[1:]...)
+		}
+		cmd := exec.Command("go", targs...)
 		cmd.Dir = pkgDir
 		cmd.Env = append(os.Environ(), "GOFLAGS=-mod=mod", "GOPROXY=off", "GOSUMDB=off", "GOTOOLCHAIN=local", fmt.Sprintf("VERIF_BOUND=%d", bound))
 		t0 := time.Now()
@@ -851,6 +872,11 @@ func runBounded(pc *PropCfg, prop, tier, repo, verif string, skip bool) []map[st
 					}
 				}
 			}
+		}
+		if b.Race && strings.Contains(string(o), "WARNING: DATA RACE") {
+			res["result"] = "fail"
+			i := strings.Index(string(o), "WARNING: DATA RACE")
+			res["output"] = "the race detector reported a data race:\n" + truncate(string(o)[i:], 4000)
 		}
 		fmt.Printf("bounded %s: bound %d, %v cases, %v\n", b.Name, bound, res["cases"], res["result"])
 		out = append(out, res)
